@@ -92,11 +92,67 @@ Definition v8_view (d : v8desc) (rest : list Z) : vp8d :=
         (match e_tid d with Some (_, y) => y | None => false end)
         rest.
 
+Ltac pows :=
+  change (2 ^ 7) with 128 in *; change (2 ^ 6) with 64 in *; change (2 ^ 5) with 32 in *;
+  change (2 ^ 4) with 16 in *; change (2 ^ 3) with 8 in *; change (2 ^ 2) with 4 in *;
+  change (2 ^ 1) with 2 in *; change (2 ^ 0) with 1 in *.
+
+(* decoding the fields of composed bytes *)
+Lemma byte0_fields x r6 n s r3 p : 0 <= p < 8 ->
+  let b := b2z x * 128 + b2z r6 * 64 + b2z n * 32 + b2z s * 16 + b2z r3 * 8 + p in
+  bit b 7 = x /\ bit b 5 = n /\ bit b 4 = s /\ bits b 0 3 = p.
+Proof.
+  intros Hp. cbv zeta. unfold bit, bits. pows.
+  destruct x, r6, n, s, r3; cbn [b2z]; repeat split; lia.
+Qed.
+
+Lemma byte1_fields i l t k rx : 0 <= rx < 16 ->
+  let b := b2z i * 128 + b2z l * 64 + b2z t * 32 + b2z k * 16 + rx in
+  bit b 7 = i /\ bit b 6 = l /\ bit b 5 = t /\ bit b 4 = k.
+Proof.
+  intros Hp. cbv zeta. unfold bit. pows.
+  destruct i, l, t, k; cbn [b2z]; repeat split; lia.
+Qed.
+
+Lemma pic15_fields p : 0 <= p < 32768 ->
+  bit (128 + p / 256) 7 = true /\ ((128 + p / 256) mod 128) * 256 + p mod 256 = p.
+Proof. intros Hp. unfold bit. pows. split; lia. Qed.
+
+Lemma pic7_fields p : 0 <= p < 128 -> bit p 7 = false.
+Proof. intros Hp. unfold bit. pows. lia. Qed.
+
+Lemma tk_fields t y k : 0 <= t < 4 -> 0 <= k < 32 ->
+  let b := t * 64 + b2z y * 32 + k in bits b 6 2 = t /\ bit b 5 = y.
+Proof.
+  intros Ht Hk. cbv zeta. unfold bit, bits. pows. destruct y; cbn [b2z]; split; lia.
+Qed.
+
+(* closed index arithmetic *)
+Ltac closed_z i :=
+  lazymatch i with
+  | Z0 => idtac | Zpos _ => idtac | Zneg _ => idtac
+  | ?a + ?b => closed_z a; closed_z b
+  | ?a - ?b => closed_z a; closed_z b
+  | _ => fail
+  end.
+Ltac norm_one i :=
+  lazymatch i with
+  | Z0 => fail | Zpos _ => fail
+  | _ => closed_z i; let i' := eval vm_compute in i in progress (change i with i')
+  end.
+Ltac norm_idx :=
+  repeat match goal with
+         | |- context [rd ?l ?i] => norm_one i
+         | |- context [drop ?l ?i] => norm_one i
+         | |- context [Some (_, ?i)] => norm_one i
+         end.
+
 Ltac rd_step :=
-  repeat first [ rewrite rd_cons0
-               | rewrite rd_consS by lia
-               | rewrite drop_consS by lia
-               | progress (cbn [Z.sub Z.add Z.pos_sub Pos.pred_double Z.opp Pos.add Pos.succ Z.succ_double Z.pred_double Z.double]) ].
+  repeat (norm_idx;
+          first [ rewrite rd_cons0
+                | rewrite rd_consS by reflexivity
+                | rewrite drop_consS by reflexivity
+                | rewrite drop_0 ]).
 
 Lemma bit_byte b k : 0 <= k -> bit b k = ((b / 2 ^ k) mod 2 =? 1).
 Proof. reflexivity. Qed.
@@ -111,8 +167,263 @@ Proof.
   unfold vp8_encode, v8_view, v8_has_ext, vp8_parse.
   cbn [e_n e_s e_partid e_r6 e_r3 e_rx e_pic e_tl0 e_tid e_key].
   destruct pic as [[[|] p]|]; destruct tl0 as [t0|]; destruct tid as [[t y]|]; destruct key as [k|];
-    cbn [is_some orb app b2z]; rd_step.
-  all: unfold bit, bits; change (2 ^ 7) with 128; change (2 ^ 6) with 64; change (2 ^ 5) with 32;
-    change (2 ^ 4) with 16; change (2 ^ 3) with 8; change (2 ^ 2) with 4; change (2 ^ 0) with 1.
-  all: destruct n, s, r6, r3; cbn [b2z].
-Abort.
+    cbn [is_some orb app]; cbv zeta.
+  all: match goal with
+       | |- context [b2z ?x * 128 + b2z ?a * 64 + b2z ?b * 32 + b2z ?c * 16 + b2z ?e * 8 + ?pp] =>
+         destruct (byte0_fields x a b c e pp Hp) as (B07 & B05 & B04 & B03)
+       end.
+  all: try match goal with
+       | |- context [b2z ?i * 128 + b2z ?l * 64 + b2z ?t * 32 + b2z ?k * 16 + ?rr] =>
+         destruct (byte1_fields i l t k rr Hrx) as (B17 & B16 & B15 & B14)
+       end.
+  all: try (destruct (pic15_fields p Hpic) as (P7 & Pv)).
+  all: try (pose proof (pic7_fields p Hpic) as P7).
+  all: try match goal with
+       | |- context [?t * 64 + b2z ?y * 32 + ?k] =>
+         destruct (tk_fields t y k ltac:(lia) ltac:(lia)) as (T6 & T5)
+       end.
+  all: repeat (progress (rd_step; cbv beta iota;
+               rewrite ?B07, ?B05, ?B04, ?B03, ?B17, ?B16, ?B15, ?B14, ?P7, ?Pv, ?T6, ?T5;
+               cbn [andb orb negb])).
+  all: reflexivity.
+Qed.
+
+(* ---- the RTP header (no extension, no padding) ---- *)
+Lemma drop_app_blen (h x : list Z) : drop (h ++ x) (blen h) = x.
+Proof.
+  unfold drop, blen. rewrite Nat2Z.id. rewrite skipn_app, skipn_all, Nat.sub_diag. reflexivity.
+Qed.
+
+Lemma blen_app (a b : list Z) : blen (a ++ b) = blen a + blen b.
+Proof. unfold blen. rewrite app_length. lia. Qed.
+
+(* b0: version, P = 0, X = 0, CC = cc; b1: marker and payload type *)
+Definition hdr_ok (b0 cc : Z) (tail : list Z) : Prop :=
+  0 <= cc < 16 /\ bits b0 0 4 = cc /\ bit b0 4 = false /\ bit b0 5 = false /\ blen tail = 8 + 4 * cc.
+
+Lemma rtp_payload_hdr b0 b1 b2 b3 cc tail x :
+  hdr_ok b0 cc tail -> rtp_payload (b0 :: b1 :: b2 :: b3 :: tail ++ x) = Some x.
+Proof.
+  intros (Hcc & Hb & _ & Hp & Hl). unfold rtp_payload.
+  assert (Hlen : blen (b0 :: b1 :: b2 :: b3 :: tail ++ x) = (12 + 4 * cc + blen x)%Z).
+  { rewrite !blen_cons, blen_app. lia. }
+  pose proof (blen_nonneg x) as Hx.
+  rewrite Hlen. replace (12 + 4 * cc + blen x <? 12) with false by lia.
+  rewrite rd_cons0. rewrite Hb, Hp.
+  replace (12 + 4 * cc + blen x <? 12 + cc * 4) with false by lia.
+  f_equal.
+  change (b0 :: b1 :: b2 :: b3 :: tail ++ x) with ((b0 :: b1 :: b2 :: b3 :: tail) ++ x).
+  replace (12 + cc * 4) with (blen (b0 :: b1 :: b2 :: b3 :: tail)) by (rewrite !blen_cons; lia).
+  apply drop_app_blen.
+Qed.
+
+(* the flags of a VP8 packet are the fields of its payload descriptor *)
+Theorem packet_flags_vp8 b0 b1 b2 b3 cc tail d jt jk pl :
+  hdr_ok b0 cc tail -> v8_wf d -> 0 <= jt < 8 -> 0 <= jk < 32 ->
+  let start := e_s d && (e_partid d =? 0) in
+  let kf := start && match pl with [] => false | h :: _ => negb (bit h 0) end in
+  packet_flags CVP8 (b0 :: b1 :: b2 :: b3 :: tail ++ vp8_encode d jt jk ++ pl) =
+  FOk (mkFlags (b2 * 256 + b3) (bit b1 7) start (bit b1 7) kf
+               (match e_pic d with Some (_, p) => p | None => 0 end)
+               (match e_tid d with Some (t, _) => t | None => 0 end) 0
+               (kf || match e_tid d with Some (_, y) => y | None => false end) kf false)
+      (e_n d).
+Proof.
+  intros Hh Hd Hjt Hjk. cbv zeta. unfold packet_flags.
+  pose proof (rtp_payload_hdr b0 b1 b2 b3 cc tail (vp8_encode d jt jk ++ pl) Hh) as Hpl.
+  destruct Hh as (Hcc & Hb & Hx & Hp & Hl).
+  assert (Hlen : (blen (b0 :: b1 :: b2 :: b3 :: tail ++ vp8_encode d jt jk ++ pl) <? 4) = false).
+  { rewrite !blen_cons. pose proof (blen_nonneg (tail ++ vp8_encode d jt jk ++ pl)). lia. }
+  rewrite Hlen. rd_step. cbv beta iota. rewrite Hx. rewrite Hpl.
+  rewrite (vp8_parse_encode d jt jk pl Hd Hjt Hjk).
+  unfold v8_view. cbn [v8_s v8_partid v8_payload v8_picid v8_tid v8_y v8_n].
+  reflexivity.
+Qed.
+
+
+
+(* ---- VP9 (descriptor without scalability structure) ---- *)
+Record v9desc := mkV9d {
+  n_p : bool; n_f : bool; n_b : bool; n_e : bool; n_z : bool;
+  n_pic : option (bool * Z);                        (* 15-bit?, picture id *)
+  n_layer : option (Z * bool * Z * bool * Z);       (* tid, U, sid, D, TL0PICIDX (non-flexible mode) *)
+  n_refs : list Z }.                                (* P_DIFFs, used when F and P *)
+
+Definition v9_wf (d : v9desc) : Prop :=
+  match n_pic d with
+  | Some (true, p) => 0 <= p < 32768
+  | Some (false, p) => 0 <= p < 128
+  | None => True
+  end /\
+  match n_layer d with
+  | Some (t, _, s, _, tl0) => 0 <= t < 8 /\ 0 <= s < 5 /\ 0 <= tl0 < 256
+  | None => True
+  end /\
+  (1 <= Z.of_nat (length (n_refs d)) <= 3) /\ Forall (fun r => 0 <= r < 128) (n_refs d).
+
+Fixpoint enc_refs (l : list Z) : list Z :=
+  match l with
+  | [] => []
+  | [r] => [r * 2]
+  | r :: l' => (r * 2 + 1) :: enc_refs l'
+  end.
+
+Definition vp9_encode (d : v9desc) : list Z :=
+  [ b2z (is_some (n_pic d)) * 128 + b2z (n_p d) * 64 + b2z (is_some (n_layer d)) * 32
+    + b2z (n_f d) * 16 + b2z (n_b d) * 8 + b2z (n_e d) * 4 + 0 * 2 + b2z (n_z d) ]
+  ++ match n_pic d with
+     | Some (true, p) => [128 + p / 256; p mod 256]
+     | Some (false, p) => [p]
+     | None => []
+     end
+  ++ match n_layer d with
+     | Some (t, u, s, dd, tl0) =>
+       (t * 32 + b2z u * 16 + s * 2 + b2z dd) :: (if n_f d then [] else [tl0])
+     | None => []
+     end
+  ++ (if n_f d && n_p d then enc_refs (n_refs d) else []).
+
+Definition v9_view (d : v9desc) (rest : list Z) : vp9d :=
+  mkVp9 (n_p d) (n_b d) (n_e d)
+        (match n_layer d with Some (t, _, _, _, _) => t | None => 0 end)
+        (match n_layer d with Some (_, u, _, _, _) => u | None => false end)
+        (match n_layer d with Some (_, _, s, _, _) => s | None => 0 end)
+        rest.
+
+Lemma byte9_fields i p l f b e z :
+  let x := b2z i * 128 + b2z p * 64 + b2z l * 32 + b2z f * 16 + b2z b * 8 + b2z e * 4 + 0 * 2 + b2z z in
+  bit x 7 = i /\ bit x 6 = p /\ bit x 5 = l /\ bit x 4 = f /\ bit x 3 = b /\ bit x 2 = e /\
+  bit x 1 = false /\ bit x 0 = z.
+Proof.
+  cbv zeta. unfold bit. pows. destruct i, p, l, f, b, e, z; cbn [b2z]; repeat split; lia.
+Qed.
+
+Lemma layer_fields t u s dd : 0 <= t < 8 -> 0 <= s < 5 ->
+  let x := t * 32 + b2z u * 16 + s * 2 + b2z dd in
+  bits x 5 3 = t /\ bit x 4 = u /\ bits x 1 3 = s.
+Proof.
+  intros Ht Hs. cbv zeta. unfold bit, bits. pows. destruct u, dd; cbn [b2z]; repeat split; lia.
+Qed.
+
+Lemma ref_last r : 0 <= r < 128 -> bit (r * 2) 0 = false.
+Proof. intros H. unfold bit. pows. lia. Qed.
+Lemma ref_more r : 0 <= r < 128 -> bit (r * 2 + 1) 0 = true.
+Proof. intros H. unfold bit. pows. lia. Qed.
+
+Lemma refs_parse (l : list Z) (pre rest : list Z) pos :
+  1 <= Z.of_nat (length l) <= 3 -> Forall (fun r => 0 <= r < 128) l ->
+  pos = blen pre ->
+  vp9_refs (pre ++ enc_refs l ++ rest) pos = Some (pos + Z.of_nat (length l)).
+Proof.
+  intros Hn Hf Hpos.
+  assert (Hrd : forall k x, 0 <= k -> rd (pre ++ x) (pos + k) = rd x k).
+  { intros k x Hk. unfold rd. rewrite blen_app. subst pos. pose proof (blen_nonneg pre).
+    destruct ((0 <=? k) && (k <? blen x)) eqn:E.
+    - replace ((0 <=? blen pre + k) && (blen pre + k <? blen pre + blen x)) with true by lia.
+      rewrite nth_error_app2 by (unfold blen; lia).
+      f_equal. unfold blen. lia.
+    - replace ((0 <=? blen pre + k) && (blen pre + k <? blen pre + blen x)) with false by lia.
+      reflexivity. }
+  unfold vp9_refs.
+  replace pos with (pos + 0) at 1 by lia. rewrite Hrd by lia.
+  rewrite (Hrd 1), (Hrd 2) by lia.
+  destruct l as [|r1 [|r2 [|r3 [|r4 l]]]]; cbn [length] in Hn; try lia.
+  - inversion Hf as [|? ? H1 _]; subst. cbn [enc_refs app]. rd_step.
+    rewrite (ref_last r1 H1). cbn [negb length]. f_equal.
+  - inversion Hf as [|? ? H1 Hf2]; subst. inversion Hf2 as [|? ? H2 _]; subst.
+    cbn [enc_refs app]. rd_step. rewrite (ref_more r1 H1). cbn [negb]. rd_step.
+    rewrite (ref_last r2 H2). cbn [negb length]. f_equal.
+  - inversion Hf as [|? ? H1 Hf2]; subst. inversion Hf2 as [|? ? H2 Hf3]; subst.
+    inversion Hf3 as [|? ? H3 _]; subst.
+    cbn [enc_refs app]. rd_step. rewrite (ref_more r1 H1). cbn [negb]. rd_step.
+    rewrite (ref_more r2 H2). cbn [negb]. rd_step.
+    rewrite (ref_last r3 H3). cbn [negb length]. f_equal.
+Qed.
+
+Lemma enc_refs_length l : length (enc_refs l) = length l.
+Proof.
+  induction l as [|r [|r2 l] IH]; [reflexivity|reflexivity|].
+  change (enc_refs (r :: r2 :: l)) with ((r * 2 + 1) :: enc_refs (r2 :: l)).
+  cbn [length]. rewrite IH. reflexivity.
+Qed.
+
+Ltac split_pre L :=
+  lazymatch L with
+  | enc_refs _ ++ _ => constr:(@nil Z)
+  | ?x :: ?t => let p := split_pre t in constr:(x :: p)
+  end.
+
+Theorem vp9_parse_encode d rest :
+  v9_wf d -> vp9_parse (vp9_encode d ++ rest) = Some (v9_view d rest).
+Proof.
+  intros (Hpic & Hlay & Hn & Hf).
+  destruct d as [p f b e z pic layer refs].
+  cbn [n_p n_f n_b n_e n_z n_pic n_layer n_refs] in *.
+  unfold vp9_encode, v9_view, vp9_parse.
+  cbn [n_p n_f n_b n_e n_z n_pic n_layer n_refs].
+  destruct pic as [[[|] pid]|]; destruct layer as [[[[[t u] s] dd] tl0]|]; destruct f, p;
+    cbn [is_some andb app]; cbv zeta.
+  all: match goal with
+       | |- context [b2z ?i * 128 + b2z ?pp * 64 + b2z ?l * 32 + b2z ?ff * 16 + b2z ?bb * 8 + b2z ?ee * 4 + 0 * 2 + b2z ?zz] =>
+         destruct (byte9_fields i pp l ff bb ee zz) as (N7 & N6 & N5 & N4 & N3 & N2 & N1 & N0)
+       end.
+  all: try (destruct (pic15_fields pid Hpic) as (P7 & Pv)).
+  all: try (pose proof (pic7_fields pid Hpic) as P7).
+  all: try (destruct Hlay as (Ht & Hs & Htl);
+            destruct (layer_fields t u s dd Ht Hs) as (L5 & L4 & L1);
+            assert (L9 : (5 <=? s) = false) by lia).
+  all: repeat (progress (rd_step; cbv beta iota;
+               rewrite ?N7, ?N6, ?N5, ?N4, ?N3, ?N2, ?N1, ?N0, ?P7, ?L5, ?L4, ?L1, ?L9;
+               cbn [andb orb negb])).
+  all: try reflexivity.
+  (* the cases with reference indices *)
+  all: match goal with
+       | |- context [vp9_refs ?L ?pos] =>
+         let pre := split_pre L in
+         change L with (pre ++ enc_refs refs ++ rest);
+         rewrite (refs_parse refs pre rest pos Hn Hf eq_refl);
+         change (pre ++ enc_refs refs ++ rest) with ((pre ++ enc_refs refs) ++ rest) at 1;
+         replace (pos + Z.of_nat (length refs)) with (blen (pre ++ enc_refs refs))
+           by (rewrite blen_app; unfold blen at 2; rewrite enc_refs_length; reflexivity);
+         rewrite drop_app_blen
+       end.
+  all: reflexivity.
+Qed.
+
+(* the flags of a VP9 packet are the fields of its payload descriptor; the
+   codec payload must not be empty (pion refuses... no: an empty payload is
+   accepted, the key-frame test then fails) *)
+Theorem packet_flags_vp9 b0 b1 b2 b3 cc tail d pl :
+  hdr_ok b0 cc tail -> v9_wf d ->
+  let kf :=
+    match pl with
+    | h :: _ =>
+      if n_b d && (bits h 6 2 =? 2) then
+        if negb (bits h 4 2 =? 3) then bits h 2 2 =? 0 else bits h 1 2 =? 0
+      else false
+    | [] => false
+    end in
+  packet_flags CVP9 (b0 :: b1 :: b2 :: b3 :: tail ++ vp9_encode d ++ pl) =
+  FOk (mkFlags (b2 * 256 + b3) (bit b1 7) (n_b d) (n_e d) kf 0
+               (match n_layer d with Some (t, _, _, _, _) => t | None => 0 end)
+               (match n_layer d with Some (_, _, s, _, _) => s | None => 0 end)
+               (kf || match n_layer d with Some (_, u, _, _, _) => u | None => false end)
+               (kf || negb (n_p d)) (n_z d))
+      false.
+Proof.
+  intros Hh Hd. cbv zeta. unfold packet_flags.
+  pose proof (rtp_payload_hdr b0 b1 b2 b3 cc tail (vp9_encode d ++ pl) Hh) as Hpl.
+  destruct Hh as (Hcc & Hb & Hx & Hp & Hl).
+  assert (Hlen : (blen (b0 :: b1 :: b2 :: b3 :: tail ++ vp9_encode d ++ pl) <? 4) = false).
+  { rewrite !blen_cons. pose proof (blen_nonneg (tail ++ vp9_encode d ++ pl)). lia. }
+  rewrite Hlen. rd_step. cbv beta iota. rewrite Hx. rewrite Hpl.
+  rewrite (vp9_parse_encode d pl Hd).
+  unfold v9_view. cbn [v9_p v9_b v9_e v9_tid v9_u v9_sid v9_payload].
+  (* the Z bit is bit 0 of the first descriptor byte *)
+  unfold vp9_encode. cbn [app].
+  match goal with
+  | |- context [b2z ?i * 128 + b2z ?pp * 64 + b2z ?l * 32 + b2z ?ff * 16 + b2z ?bb * 8 + b2z ?ee * 4 + 0 * 2 + b2z ?zz] =>
+    destruct (byte9_fields i pp l ff bb ee zz) as (_ & _ & _ & _ & _ & _ & _ & N0)
+  end.
+  rewrite N0. reflexivity.
+Qed.
